@@ -155,21 +155,37 @@ def replay_headers(chk, g, hdrs, rng, budget, deviate=None, report=True):
 
 
 # ------------------------------------------------------------------------------- direction B
-def random_traces(rng, count, steps):
+FUZZY_DT = (3, 6, 7, 19)          # ticks of 0.1 ms: step times 0.3, 0.6, 0.7, 1.9
+FUZZY_Q = (3, 6, 7)               # durations q * dt whose IEEE quotient is a hair above q for some of them
+
+
+def random_traces(rng, count, steps, fuzzy=False):
+    """fuzzy: step times / durations a user would write (0.7, 2.1, ...) chosen so that
+    ceil(float(duration) / float(dt)) often differs from the exact ceiling; reached through the
+    constructor and through dt / delay / duration setters in either order."""
     traces = []
     for _ in range(count):
-        k = rng.choice(ALLK)
+        k = rng.choice(ALLK if not fuzzy else ("synapse", "connection", "layer", "reducer"))
         cls = rng.choice(CLASSES[k])
-        tick = rng.choice([0.5, 0.25, 1.0])
+        tick = rng.choice([0.5, 0.25, 1.0]) if not fuzzy else 0.1
         syn = rng.choice(["delta", "deltaplus", "single", "double"]) if k in ("synapse", "connection", "layer") else "none"
-        cfg = dict(dt=rng.randint(1, 4), delay=rng.randint(0, 8) if syn != "none" else 0,
+
+        def fdt():
+            return rng.choice(FUZZY_DT + (10,))
+
+        def fdur(dt):
+            return rng.choice(FUZZY_Q) * dt if rng.random() < 0.8 else rng.randint(0, 40)
+        dt0 = fdt() if fuzzy else rng.randint(1, 4)
+        cfg = dict(dt=dt0, delay=(fdur(dt0) if fuzzy else rng.randint(0, 8)) if syn != "none" else 0,
                    batchsz=rng.randint(1, 4) if k != "reducer" else 0, inplace=False,
-                   dur=rng.randint(0, 8) if k == "reducer" else 0, incl=(rng.random() < 0.5) if k == "reducer" else False,
+                   dur=(fdur(dt0) if fuzzy else rng.randint(0, 8)) if k == "reducer" else 0,
+                   incl=(rng.random() < 0.5) if k == "reducer" else False,
                    syn=syn, dtype="f32")
         hdr = dict(kind=k, cls=cls, tick=tick, cfg=cfg, seed=rng.randrange(1, 10 ** 6))
         if k == "reducer":
             hdr["warm"] = (not UNSHAPED_OK) or rng.random() < 0.5
         impl = ConfigImpl(hdr)
+        nq0 = impl.nq()
         evs = []
         for _ in range(steps):
             choices = ["set_dt", "to", "probe"]
@@ -181,25 +197,39 @@ def random_traces(rng, count, steps):
                 choices += ["set_batchsz"]
             if k == "reducer":
                 choices += ["set_dur", "set_dur", "set_inplace"]
+            if fuzzy:
+                choices += ["set_dt", "set_dt"]
             a = rng.choice(choices)
-            v = {"set_dt": lambda: rng.randint(1, 4), "to": lambda: rng.choice(["f32", "f64"]), "probe": lambda: 0,
-                 "set_delay": lambda: rng.randint(0, 8), "set_batchsz": lambda: rng.randint(1, 4),
-                 "set_inplace": lambda: rng.random() < 0.5, "set_dur": lambda: rng.randint(1, 8),
+            cur_dt = impl.project()["cfg"]["dt"]
+            v = {"set_dt": lambda: fdt() if fuzzy else rng.randint(1, 4), "to": lambda: rng.choice(["f32", "f64"]),
+                 "probe": lambda: 0,
+                 "set_delay": lambda: fdur(cur_dt) if fuzzy and cur_dt > 0 else rng.randint(0, 8),
+                 "set_batchsz": lambda: rng.randint(1, 4),
+                 "set_inplace": lambda: rng.random() < 0.5,
+                 "set_dur": lambda: max(fdur(cur_dt), 1) if fuzzy and cur_dt > 0 else rng.randint(1, 8),
                  "set_syn": lambda: rng.choice(["delta", "deltaplus", "single", "double"])}[a]()
             op = {"a": a}
             if a != "probe":
                 op[{"to": "s", "set_syn": "s", "set_inplace": "f"}.get(a, "v")] = v
+            if a in ("set_dt", "set_delay", "set_dur", "set_syn"):
+                op["nq"] = impl.nq_after(op)       # oracle input: the IEEE ceiling on the floats handed over
             ret = impl.apply(op)
             ev = {"op": op, "ret": ret, "st": impl.project()}
             if a == "probe" and impl.detail:
                 ev["_detail"] = impl.detail
             evs.append(ev)
-        traces.append({"hdr": {"kind": k, "init": cfg, "cfg": hdr, "waive": []}, "ev": evs})
+        traces.append({"hdr": {"kind": k, "init": cfg, "cfg": hdr, "nq": nq0, "waive": []}, "ev": evs})
     return traces
 
 
+def _exact_ceil(ev):
+    c = ev["st"]["cfg"]
+    d = c["dur"] if ev["st"]["kind"] == "reducer" else c["delay"]
+    return -(-d // c["dt"]) if c["dt"] > 0 else -1
+
+
 def validate_traces(chk, traces, site, report=True):
-    clean = [{"hdr": {"kind": t["hdr"]["kind"], "init": t["hdr"]["init"], "waive": []}, "ev": [{kk: vv for kk, vv in e.items() if not kk.startswith("_")} for e in t["ev"]]}
+    clean = [{"hdr": {"kind": t["hdr"]["kind"], "init": t["hdr"]["init"], "nq": t["hdr"]["nq"], "waive": []}, "ev": [{kk: vv for kk, vv in e.items() if not kk.startswith("_")} for e in t["ev"]]}
              for t in traces]
     # two rounds: after a drift the implementation stays off the specification, so later lines of
     # the same execution would only repeat it
@@ -212,8 +242,8 @@ def validate_traces(chk, traces, site, report=True):
         chk.evaluations += nev
         for ti, t in enumerate(traces):
             for i, e in enumerate(t["ev"]):
-                chk.nontrivial.add(("trace", ti, i))
-        chk.extra["trace_events"] = nev
+                chk.nontrivial.add(("trace", site, ti, i))
+        chk.extra["trace_events"] = chk.extra.get("trace_events", 0) + nev
         chk.note(f"traces[{site}]: {len(traces)} traces, {nev} events, rejected lines={len(rej)}")
         chk.sample({"kind": "trace", "hdr": traces[0]["hdr"]["cfg"], "first_events": clean[0]["ev"][:2]})
         for r in rej:
@@ -241,7 +271,7 @@ def canary_trace(chk, traces, rejected=()):
                                 or t["ev"][0]["st"]["sizes"])
     if not ok:
         src = dict(src, ev=src["ev"][:1])
-    good = {"hdr": {"kind": src["hdr"]["kind"], "init": src["hdr"]["init"], "waive": []},
+    good = {"hdr": {"kind": src["hdr"]["kind"], "init": src["hdr"]["init"], "nq": src["hdr"]["nq"], "waive": []},
             "ev": [{kk: vv for kk, vv in e.items() if not kk.startswith("_")} for e in copy.deepcopy(src["ev"])]}
     bad = copy.deepcopy(good)
     line = next(i for i, e in enumerate(bad["ev"]) if e["st"]["sizes"]) + 1
@@ -303,6 +333,13 @@ def run(tier: str, seed: int) -> int:
     traces = random_traces(rng, 120 if not thorough else 1500, steps=8)
     _, rej = validate_traces(chk, traces, site="random-sequences")
     canary_trace(chk, traces, rejected={r["trace"] for r in rej})
+    # step times and durations a user would write, incl. pairs whose IEEE quotient is just above an integer
+    ftraces = random_traces(rng, 80 if not thorough else 800, steps=8, fuzzy=True)
+    nfuzzy = sum(1 for t in ftraces for e in t["ev"] if "nq" in e["op"] and _exact_ceil(e) != e["op"]["nq"])
+    if nfuzzy < 10:
+        raise MachineryFailure(f"only {nfuzzy} recorded assignments hit a step-time/duration pair with a fuzzy quotient")
+    chk.extra["fuzzy_quotient_events"] = nfuzzy
+    validate_traces(chk, ftraces, site="user-floats")
     # extension of the specification beyond the listed property (DESIGN section 7, item 2)
     run_virtual_tensor(chk, rng, thorough)
     return chk.finish()
